@@ -224,6 +224,7 @@ func (h *harnessDef) config(tier string, known map[string]bool) engine.Config {
 	c := engine.Config{Harness: h.Pkg + "." + h.Name, Known: known}
 	_, c.NoPanic = h.Opts["nopanic"]
 	_, c.NoDeadlock = h.Opts["nodeadlock"]
+	_, c.NoLivelock = h.Opts["nolivelock"]
 	c.Preemptions = atoi(h.Opts["preempt"], 0)
 	if tier == "thorough" {
 		c.Preemptions = atoi(h.Opts["preempt_thorough"], c.Preemptions)
